@@ -75,10 +75,10 @@ int64_t list_int_pop(List_int *list) {
 }
 
 /* Insert an element at the specified index */
-void list_int_insert(List_int *list, int index, int64_t value) {
+void list_int_insert(List_int *list, int64_t index, int64_t value) {
     if (index < 0 || index > list->length) {
-        fprintf(stderr, "Error: Index %d out of bounds for list of length %d\n", 
-                index, list->length);
+        fprintf(stderr, "Error: Index %lld out of bounds for list of length %d\n", 
+                (long long)index, list->length);
         exit(1);
     }
     
@@ -93,10 +93,10 @@ void list_int_insert(List_int *list, int index, int64_t value) {
 }
 
 /* Remove and return the element at the specified index */
-int64_t list_int_remove(List_int *list, int index) {
+int64_t list_int_remove(List_int *list, int64_t index) {
     if (index < 0 || index >= list->length) {
-        fprintf(stderr, "Error: Index %d out of bounds for list of length %d\n", 
-                index, list->length);
+        fprintf(stderr, "Error: Index %lld out of bounds for list of length %d\n", 
+                (long long)index, list->length);
         exit(1);
     }
     
@@ -111,10 +111,10 @@ int64_t list_int_remove(List_int *list, int index) {
 }
 
 /* Set the value at the specified index */
-void list_int_set(List_int *list, int index, int64_t value) {
+void list_int_set(List_int *list, int64_t index, int64_t value) {
     if (index < 0 || index >= list->length) {
-        fprintf(stderr, "Error: Index %d out of bounds for list of length %d\n", 
-                index, list->length);
+        fprintf(stderr, "Error: Index %lld out of bounds for list of length %d\n", 
+                (long long)index, list->length);
         exit(1);
     }
     
@@ -122,10 +122,10 @@ void list_int_set(List_int *list, int index, int64_t value) {
 }
 
 /* Get the value at the specified index */
-int64_t list_int_get(List_int *list, int index) {
+int64_t list_int_get(List_int *list, int64_t index) {
     if (index < 0 || index >= list->length) {
-        fprintf(stderr, "Error: Index %d out of bounds for list of length %d\n", 
-                index, list->length);
+        fprintf(stderr, "Error: Index %lld out of bounds for list of length %d\n", 
+                (long long)index, list->length);
         exit(1);
     }
     
